@@ -16,7 +16,7 @@ M = [
  ("C02-rescan-keeps-deleted", "store/index/index.go", "			// Record is deleted, so skip.\n			pos += int64(size ^ deletedBit)\n			continue", "			// Record is deleted, so skip.\n			size ^= deletedBit", ["C02"]),
  ("C02-snapshot-not-removed", "store/index/index.go", "		if e = os.Remove(bucketsFileName); e != nil {\n			log.Error(\"Error removing saved buckets file\", \"err\", err)\n		}", "		_ = bucketsFileName", ["C02", "C03"]),
  ("C03-commit-index-first", "store/store.go", "	primaryWork, err := s.index.Primary.Flush()\n	if err != nil {\n		return 0, err\n	}\n	vhook.At(\"store.commit.after-primary\")\n	indexWork, err := s.index.Flush()\n	if err != nil {\n		return 0, err\n	}", "	indexWork, err := s.index.Flush()\n	if err != nil {\n		return 0, err\n	}\n	vhook.At(\"store.commit.after-primary\")\n	primaryWork, err := s.index.Primary.Flush()\n	if err != nil {\n		return 0, err\n	}", ["C03"]),
- ("C03-buckets-before-write", "store/index/index.go", "	vhook.At(\"index.flush.before-write\")\n	err := idx.writer.Flush()\n	if err != nil {\n		return 0, fmt.Errorf(\"cannot flush data to index file %s: %w\", idx.file.Name(), err)\n	}\n	vhook.At(\"index.flush.written\")\n	idx.bucketLk.Lock()\n	defer idx.bucketLk.Unlock()\n	for _, blk := range blks {\n		if err = idx.buckets.Put(blk.bucket, blk.blk.Offset); err != nil {\n			return 0, fmt.Errorf(\"error commiting bucket: %w\", err)\n		}\n	}\n", "	idx.bucketLk.Lock()\n	defer idx.bucketLk.Unlock()\n	for _, blk := range blks {\n		if err := idx.buckets.Put(blk.bucket, blk.blk.Offset); err != nil {\n			return 0, fmt.Errorf(\"error commiting bucket: %w\", err)\n		}\n	}\n	vhook.At(\"index.flush.before-write\")\n	err := idx.writer.Flush()\n	if err != nil {\n		return 0, fmt.Errorf(\"cannot flush data to index file %s: %w\", idx.file.Name(), err)\n	}\n	vhook.At(\"index.flush.written\")\n", ["C03", "C06"]),
+ ("C03-buckets-before-write", "store/index/index.go", "		blks = append(blks, bucketBlock{bucket, blk})\n		work += newWork\n	}", "		blks = append(blks, bucketBlock{bucket, blk})\n		work += newWork\n		idx.bucketLk.Lock()\n		idx.buckets.Put(bucket, blk.Offset)\n		idx.bucketLk.Unlock()\n	}", ["C03", "C06"]),
  ("C03-gc-remove-before-header", "store/primary/multihash/gc.go", "			header.FirstFile++\n			vhook.At(\"mh.gc.before-header\")\n			if err = writeHeader(gc.primary.headerPath, header); err != nil {\n				return 0, fmt.Errorf(\"cannot write header: %w\", err)\n			}\n			vhook.At(\"mh.gc.before-remove\")\n			if err = os.Remove(filePath); err != nil {\n				return 0, fmt.Errorf(\"cannot remove primary file %s: %w\", filePath, err)\n			}", "			header.FirstFile++\n			vhook.At(\"mh.gc.before-remove\")\n			if err = os.Remove(filePath); err != nil {\n				return 0, fmt.Errorf(\"cannot remove primary file %s: %w\", filePath, err)\n			}\n			vhook.At(\"mh.gc.before-header\")\n			if err = writeHeader(gc.primary.headerPath, header); err != nil {\n				return 0, fmt.Errorf(\"cannot write header: %w\", err)\n			}", ["C03"]),
  ("C03-no-torn-tail-truncate", "store/index/index.go", "				e := os.Truncate(indexPath, pos-sizePrefixSize)\n				if e != nil {\n					log.Errorw(\"Error truncating file\", \"err\", e, \"file\", indexPath)\n				}", "				_ = pos", ["C03"]),
  ("C04-busy-filenum-only", "store/index/gc.go", "	if fileNum == fileNumInBucket && localPos == int64(localPosInBucket) {", "	if fileNum == fileNumInBucket && localPos <= int64(localPosInBucket) {", ["C04", "C11"]),
